@@ -426,6 +426,27 @@ func ops(m *model, k int) (out []struct {
 		body = append(body, "DROP TABLE `u`")
 		add(step{Op: "create_new_prefixed_table_then_drop", SQL: body, Expect: []expect{{"DS102", "u", []string{"DROP TABLE `u`"}}}}, n)
 	}
+	// statements that begin like the rebuild of u (create new_u, copy, drop u) but do not end in
+	// "rename new_u to u": u is gone for good.
+	if u := m.table("u"); u != nil && m.table("new_u") == nil {
+		drop := func(extraName string, tail string, keep *table) {
+			n := m.clone()
+			for i, x := range n.Tables {
+				if x.Name == "u" {
+					n.Tables = append(n.Tables[:i], n.Tables[i+1:]...)
+					break
+				}
+			}
+			n.Tables = append(n.Tables, keep)
+			nu := &table{Name: "new_u", Cols: append([]col(nil), u.Cols...), Idx: map[string]string{}}
+			body := []string{createSQL(nu, "new_u"), "INSERT INTO `new_u` (`id`, `v`) SELECT `id`, `v` FROM `u`", "DROP TABLE `u`", tail}
+			add(step{Op: extraName, SQL: body, Expect: []expect{{"DS102", "u", []string{"DROP TABLE `u`"}}}}, n)
+		}
+		drop("copy_drop_then_index_instead_of_rename", "CREATE INDEX `new_u_v` ON `new_u` (`v`)",
+			&table{Name: "new_u", Cols: append([]col(nil), u.Cols...), Idx: map[string]string{}})
+		drop("copy_drop_then_rename_to_another_name", fmt.Sprintf("ALTER TABLE `new_u` RENAME TO `u_v%d`", k),
+			&table{Name: fmt.Sprintf("u_v%d", k), Cols: append([]col(nil), u.Cols...), Idx: map[string]string{}})
+	}
 	// temporary table within one file
 	add(step{Op: "temp_table", SQL: []string{fmt.Sprintf("CREATE TABLE `tmpt%d` (`id` integer)", k), fmt.Sprintf("DROP TABLE `tmpt%d`", k)}}, m.clone())
 	return
@@ -437,6 +458,9 @@ type Case struct {
 	Ops     []string `json:"ops"`
 	ViaDiff []bool   `json:"via_diff"` // file produced by `migrate diff` instead of hand-written SQL
 	Latest  int      `json:"latest"`
+	// CRLF: the last (hand-written) file is saved with CR LF line endings below 200 comment lines, so
+	// that byte positions and line numbers drift apart if anything normalises the text in between.
+	CRLF bool `json:"crlf,omitempty"`
 }
 
 type lintOut struct {
@@ -509,7 +533,11 @@ func Eval(c Case) (problems []string, skipped string) {
 				return []string{"harness: " + err.Error()}, ""
 			}
 		} else {
-			os.WriteFile(w.Path("migrations", name), []byte(strings.Join(chosen.SQL, ";\n")+";\n"), 0o644)
+			body := strings.Join(chosen.SQL, ";\n") + ";\n"
+			if c.CRLF && k == len(c.Ops)-1 {
+				body = strings.Repeat("-- pad\r\n", 200) + strings.ReplaceAll(body, "\n", "\r\n")
+			}
+			os.WriteFile(w.Path("migrations", name), []byte(body), 0o644)
 			if err := clih.Rehash(w.Path("migrations")); err != nil {
 				return []string{"harness: " + err.Error()}, ""
 			}
@@ -532,8 +560,39 @@ func Eval(c Case) (problems []string, skipped string) {
 	}
 	anyDestructive := false
 	seen := map[string]bool{}
+	disk := w.ReadDir("migrations")
+	// the line numbers atlas prints for the same diagnostics (FileReport.Line), from a second run.
+	lres := w.Run(nil, "migrate", "lint", "--dir", "file://"+w.Path("migrations"), "--dev-url", w.URL("dev.sqlite"), "--latest", fmt.Sprint(c.Latest),
+		"--format", "{{ range .Files }}{{ $f := . }}{{ range .Reports }}{{ range .Diagnostics }}{{ $f.Name }}|{{ .Code }}|{{ $f.Line .Pos }}\n{{ end }}{{ end }}{{ end }}")
+	if strings.Contains(lres.Stderr, "panic") || strings.Contains(lres.Stderr, "slice bounds") || strings.Contains(lres.Stderr, "error calling Line") {
+		bad("computing the line of a diagnostic fails: %s", lres)
+	}
+	var gotLines, wantLines []string
+	for _, l := range strings.Split(strings.TrimSpace(lres.Stdout), "\n") {
+		if p := strings.Split(l, "|"); len(p) == 3 && strings.HasPrefix(p[1], "DS1") {
+			gotLines = append(gotLines, l)
+		}
+	}
+	for _, f := range out.Files {
+		for _, r := range f.Reports {
+			for _, d := range r.Diagnostics {
+				if strings.HasPrefix(d.Code, "DS1") && d.Pos >= 0 && d.Pos <= len(disk[f.Name]) {
+					wantLines = append(wantLines, fmt.Sprintf("%s|%s|%d", f.Name, d.Code, 1+strings.Count(disk[f.Name][:d.Pos], "\n")))
+				}
+			}
+		}
+	}
+	sort.Strings(gotLines)
+	sort.Strings(wantLines)
+	if fmt.Sprint(gotLines) != fmt.Sprint(wantLines) {
+		bad("line numbers printed for the diagnostics %v differ from the lines their positions are on in the file %v", gotLines, wantLines)
+	}
 	for _, f := range out.Files {
 		seen[f.Name] = true
+		// positions are byte offsets into the file as it is on disk.
+		if d, ok := disk[f.Name]; ok {
+			f.Text = d
+		}
 		if !window[f.Name] {
 			bad("file %s is outside the --latest %d window but is reported", f.Name, c.Latest)
 			continue
@@ -623,7 +682,7 @@ func Run(r *report.Run) {
 	if r.Tier == "thorough" {
 		depth = 3
 	}
-	r.Rule = fmt.Sprintf("BFS to depth %d over schema evolutions of a two-table SQLite schema (add table, add nullable column, add index, drop column by ALTER, drop column by table rebuild, drop column (by ALTER / by rebuild) and add it back in the same file, drop table, drop table and create it again in the same file, change type by rebuild, add check by rebuild, drop VIRTUAL column, temporary table / temporary column inside one file, a rebuild directly followed by DROP TABLE, two rebuilds in one file, files of more than 10 statements ending in DROP TABLE / containing a column-dropping rebuild); every history becomes a migration directory in which the last file is written by hand and, where the evolution can be expressed as a desired schema, also by the real `atlas migrate diff` (earlier files hand-written); x --latest N for every N<=depth; the real `atlas migrate lint` runs against a real SQLite dev database; states de-duplicated by the canonical schema model for expansion; non-trivial = every directory; distinct = (history, producer, N)", depth)
+	r.Rule = fmt.Sprintf("BFS to depth %d over schema evolutions of a two-table SQLite schema (add table, add nullable column, add index, drop column by ALTER, drop column by table rebuild, drop column (by ALTER / by rebuild) and add it back in the same file, drop table, drop table and create it again in the same file, change type by rebuild, add check by rebuild, drop VIRTUAL column, temporary table / temporary column inside one file, a rebuild directly followed by DROP TABLE, two rebuilds in one file, files of more than 10 statements ending in DROP TABLE / containing a column-dropping rebuild); every history becomes a migration directory in which the last file is written by hand and, where the evolution can be expressed as a desired schema, also by the real `atlas migrate diff` (earlier files hand-written); x --latest N for every N<=depth (and, for --latest 1, the hand-written file saved with CR LF line endings below 200 comment lines); the line number atlas prints for each diagnostic must be the line its byte position is on; the real `atlas migrate lint` runs against a real SQLite dev database; states de-duplicated by the canonical schema model for expansion; non-trivial = every directory; distinct = (history, producer, N)", depth)
 	r.Assumptions = []string{
 		"a file is destructive iff it removes a table or a non-virtual column that existed before the file (reference model of the evolution)",
 		"for a table rebuild the diagnostic position is the first statement of the CREATE/INSERT/DROP/RENAME group, as sqlitecheck documents",
@@ -644,11 +703,14 @@ func Run(r *report.Run) {
 				hist := append(append([]string(nil), n.ops...), o.s.Op)
 				for latest := 1; latest <= d; latest++ {
 					via := make([]bool, d)
-					cases = append(cases, Case{hist, via, latest})
+					cases = append(cases, Case{Ops: hist, ViaDiff: via, Latest: latest})
+					if latest == 1 && d <= 2 {
+						cases = append(cases, Case{Ops: hist, ViaDiff: via, Latest: latest, CRLF: true})
+					}
 					if o.s.ViaDiff {
 						v2 := make([]bool, d)
 						v2[d-1] = true
-						cases = append(cases, Case{hist, v2, latest})
+						cases = append(cases, Case{Ops: hist, ViaDiff: v2, Latest: latest})
 					}
 				}
 				k := o.next.canon() + "|" + fmt.Sprint(d)
